@@ -658,6 +658,11 @@ class Tr:
             v = self.unopt(self.expr(f.value.args[0], st, sc))
             fn = {"sha256": "Crypto.SHA256.sha256", "md5": "Crypto.MD5.md5"}[f.value.func.id]
             return V("bytes", f"{fn} {paren(self.bytes_term(v))}")
+        if isinstance(f, ast.Attribute) and f.attr == "find" and len(args) == 1:
+            v = self.expr(f.value, st, sc)
+            pat = self.expr(args[0], st, sc)
+            if v.kind == "bytes" and pat.kind == "bytes":
+                return V("int", f"Py.findI {paren(v.lean)} {paren(pat.lean)}")
         if isinstance(f, ast.Attribute) and f.attr in ("tobytes",) and not args:
             v = self.expr(f.value, st, sc)
             if v.kind == "bytes":
@@ -991,6 +996,19 @@ class Tr:
             if self.obligations:
                 t = f"Py.guardRange [{', '.join(self.obligations)}] ({t})"
             return t
+        if out[0] == "step":
+            # one iteration of a buffer loop: a bare `return` stops it (nothing changed); falling off the end of the body
+            # (the synthetic `return 1`) continues with the packet put on the queue and the new buffer
+            if retexpr is None or (isinstance(retexpr, ast.Constant) and retexpr.value is None):
+                return "pure none"
+            if not (isinstance(retexpr, ast.Constant) and retexpr.value == 1):
+                raise Unsupported("value returned from the loop body")
+            em, buf = st.get("emitted__"), st.get(out[1])
+            if em is None or em.kind != "bytes":
+                raise Unsupported("an iteration that continues without queueing exactly one packet")
+            if buf is None or buf.kind != "bytes":
+                raise Unsupported("buffer is not bytes at the end of the iteration")
+            return f"pure (some ({self.bytes_term(em)}, {self.bytes_term(buf)}))"
         if out[0] == "unit":
             if retexpr is not None:
                 raise Unsupported("value returned from a procedure")
@@ -1210,6 +1228,10 @@ LAN_SPECS = [
          out=("value", "bytes"), rtype="R Bytes", effectful=True, native_bytes=True,
          externals={"Security.decrypt_aes_cbc": CBC_DEC, "strxor": ("Py.strxor", ["bytes", "bytes"], "bytes", True, "comm")},
          model="Model.getLocalKey key data"),
+    dict(name="reasmStep", file=LAN, func=V3 + "data_received", inputs=[("buffer", "bytes")],
+         loop_body=dict(state="_buffer", var="buffer", data="data", queue="_queue"),
+         out=("step", "buffer"), rtype="R (Option (Bytes × Bytes))", effectful=True, native_bytes=True,
+         model="Except.ok (Model.reasmStep buffer)"),
     dict(name="packetEncode", file=LAN, func="_Packet.encode",
          inputs=[("device_id", "int"), ("command", "bytes"), ("call:ts", "bytes")],
          out=("value", "bytes"), rtype="R Bytes", effectful=True, native_bytes=True,
@@ -1296,6 +1318,72 @@ SPECS = [
 ] + LAN_SPECS
 
 
+def loop_body_function(fn, cfg):
+    """`def f(self, data): self.<state> += data; while len(self.<state>) > 0: BODY` -> the synthetic function
+    `def f(<var>): BODY'; return 1` where BODY' is BODY with `self.<state>` renamed to the local `<var>`, a bare `return`
+    kept (= the loop stops, nothing changed), and `self.<queue>.put_nowait(x)` turned into `emitted__ = x`.  The skeleton
+    (accumulate, iterate while the buffer is not empty, nothing after the loop) is checked here, syntactically; anything
+    else is outside the subset."""
+    state, var = cfg["state"], cfg["var"]
+    body = [b for b in fn.body if not (isinstance(b, ast.Expr) and isinstance(b.value, ast.Constant)) and not is_log_call(b)]
+
+    def is_state(n):
+        return isinstance(n, ast.Attribute) and isinstance(n.value, ast.Name) and n.value.id == "self" and n.attr == state
+    if len(body) != 2:
+        raise Unsupported("loop skeleton: expected `buffer += data` followed by one while loop")
+    acc, loop = body
+    if not (isinstance(acc, ast.AugAssign) and isinstance(acc.op, ast.Add) and is_state(acc.target)
+            and isinstance(acc.value, ast.Name) and acc.value.id == cfg["data"]):
+        raise Unsupported("loop skeleton: first statement is not `self.%s += %s`" % (state, cfg["data"]))
+    ok_test = False
+    if isinstance(loop, ast.While) and not loop.orelse:
+        t = loop.test
+        if isinstance(t, ast.Compare) and len(t.ops) == 1 and isinstance(t.left, ast.Call) and isinstance(t.left.func, ast.Name) \
+                and t.left.func.id == "len" and len(t.left.args) == 1 and is_state(t.left.args[0]) \
+                and isinstance(t.comparators[0], ast.Constant) and (
+                    (isinstance(t.ops[0], ast.Gt) and t.comparators[0].value == 0)
+                    or (isinstance(t.ops[0], ast.NotEq) and t.comparators[0].value == 0)
+                    or (isinstance(t.ops[0], ast.GtE) and t.comparators[0].value == 1)):
+            ok_test = True
+        if is_state(t) or (isinstance(t, ast.Call) and isinstance(t.func, ast.Name) and t.func.id == "len"
+                           and len(t.args) == 1 and is_state(t.args[0])):
+            ok_test = True                       # `while self._buffer:` / `while len(self._buffer):`
+    if not ok_test:
+        raise Unsupported("loop skeleton: not `while len(self.%s) > 0`" % state)
+
+    class Rn(ast.NodeTransformer):
+        def visit_Attribute(self, n):
+            if is_state(n):
+                return ast.copy_location(ast.Name(id=var, ctx=n.ctx), n)
+            return self.generic_visit(n)
+
+        def visit_Expr(self, n):
+            c = n.value
+            if isinstance(c, ast.Call) and isinstance(c.func, ast.Attribute) and c.func.attr == "put_nowait" \
+                    and isinstance(c.func.value, ast.Attribute) and isinstance(c.func.value.value, ast.Name) \
+                    and c.func.value.value.id == "self" and c.func.value.attr == cfg["queue"] and len(c.args) == 1:
+                return ast.copy_location(ast.Assign(targets=[ast.Name(id="emitted__", ctx=ast.Store())],
+                                                    value=self.visit(c.args[0])), n)
+            return self.generic_visit(n)
+
+        def visit_While(self, n):
+            raise Unsupported("nested loop")
+
+        def visit_Continue(self, n):
+            raise Unsupported("continue in the loop body")
+
+        def visit_Break(self, n):
+            raise Unsupported("break in the loop body")
+    import copy
+    new_body = [Rn().visit(copy.deepcopy(b)) for b in loop.body]
+    new_body.append(ast.Return(value=ast.Constant(value=1)))
+    f2 = copy.copy(fn)
+    f2.body = new_body
+    f2.args = ast.arguments(posonlyargs=[], args=[ast.arg(arg="self"), ast.arg(arg=var)], kwonlyargs=[], kw_defaults=[], defaults=[])
+    ast.fix_missing_locations(f2)
+    return f2
+
+
 def translate_all(repo=None):
     """returns (lean_text, report) ; report: name -> 'ok' | 'unsupported: reason'"""
     repo = repo or REPO
@@ -1315,6 +1403,8 @@ def translate_all(repo=None):
             unproved = spec["name"] in os.environ.get("PYTRANS_UNPROVED", "").split(",")
             if fn is None:
                 raise Unsupported("function not found: " + spec["func"])
+            if spec.get("loop_body"):
+                fn = loop_body_function(fn, spec["loop_body"])
             sp = dict(spec)
             cc = {}
             if spec.get("consts_from"):
@@ -1362,7 +1452,7 @@ def translate_all(repo=None):
             defs.append((spec, None, False))
     out = []
     out.append("-- GENERATED by harness/pytrans.py from the current source text of /repo. DO NOT EDIT.\n")
-    out.append("import Msmart.Py.Ops\nimport Msmart.Model.Response\nimport Msmart.Model.Device\nimport Msmart.Model.PacketV3\nimport Msmart.Model.LanInt\nimport Msmart.Generated.Crc8Table\n\nset_option linter.unusedVariables false\n\nnamespace Msmart.Generated.Codec\nopen Msmart\n\n")
+    out.append("import Msmart.Py.Ops\nimport Msmart.Model.Response\nimport Msmart.Model.Device\nimport Msmart.Model.PacketV3\nimport Msmart.Model.LanInt\nimport Msmart.Model.Reassembly\nimport Msmart.Generated.Crc8Table\n\nset_option linter.unusedVariables false\n\nnamespace Msmart.Generated.Codec\nopen Msmart\n\n")
     out.append(STATE_STRUCT)
     out.append(APPLY_STRUCT)
     for spec in SPECS:
